@@ -31,6 +31,11 @@ module.exports = function (repo, loadPrelude) {
         let h = ''; for (let i = 0; i < k; i++) h += String.fromCharCode(dst.$array[2 + i]);
         return k + ' ' + U.strToHex(h);
       }
+      case 'bytes2str': {
+        const arr = Uint8Array.from(Buffer.from(a[1] === '-' ? '' : a[1], 'hex'));
+        return U.strToHex(P('$bytesToString')({ $array: arr, $offset: Number(a[2]), $length: Number(a[3]) }));
+      }
+      case 'str2bytes': return U.strToHex(String.fromCharCode.apply(null, P('$stringToBytes')(U.hexToStr(a[1]))));
       case 'jslit': { // ECMAScript string value of a literal text (evaluated by the engine)
         const lit = U.hexToStr(a[1]);
         let v;
